@@ -357,7 +357,9 @@ impl Value {
           FeelType::List(Box::new(FeelType::Null))
         } else {
           let item_type = values.as_vec()[0].type_of();
-          for item in values.as_vec() {
+          // the type of the first item is known already (computing it once more at every level
+          // of a nested list doubles the work with every level)
+          for item in values.as_vec().iter().skip(1) {
             if item.type_of() != item_type {
               return FeelType::List(Box::new(FeelType::Any));
             }
